@@ -112,10 +112,21 @@ pub proof fn lemma_matrix_det(a: int, b: int, t0: int, t1: int, m0: int, m1: int
     let p = m2 * t0 + m3 * t1; let q = m0 * t0 + m1 * t1;
     let c = m0 * a - m1 * b; let d = m3 * b - m2 * a;
     let det = m0 * m3 - m1 * m2;
-    assert(p * m0 - q * m2 == t1 * det) by(nonlinear_arith)
-        requires p == m2 * t0 + m3 * t1, q == m0 * t0 + m1 * t1, det == m0 * m3 - m1 * m2;
-    assert(q * m3 - p * m1 == t0 * det) by(nonlinear_arith)
-        requires p == m2 * t0 + m3 * t1, q == m0 * t0 + m1 * t1, det == m0 * m3 - m1 * m2;
+    // p*m0 - q*m2 == t1*det and q*m3 - p*m1 == t0*det: distributivity plus monomial rearrangements (one query each took 20 s)
+    lemma_mul_is_distributive_add_other_way(m0, m2 * t0, m3 * t1);
+    lemma_mul_is_distributive_add_other_way(m2, m0 * t0, m1 * t1);
+    assert((m2 * t0) * m0 == (m0 * t0) * m2) by(nonlinear_arith);
+    assert((m3 * t1) * m0 == t1 * (m0 * m3)) by(nonlinear_arith);
+    assert((m1 * t1) * m2 == t1 * (m1 * m2)) by(nonlinear_arith);
+    lemma_mul_is_distributive_sub(t1, m0 * m3, m1 * m2);
+    assert(p * m0 - q * m2 == t1 * det);
+    lemma_mul_is_distributive_add_other_way(m3, m0 * t0, m1 * t1);
+    lemma_mul_is_distributive_add_other_way(m1, m2 * t0, m3 * t1);
+    assert((m1 * t1) * m3 == (m3 * t1) * m1) by(nonlinear_arith);
+    assert((m0 * t0) * m3 == t0 * (m0 * m3)) by(nonlinear_arith);
+    assert((m2 * t0) * m1 == t0 * (m1 * m2)) by(nonlinear_arith);
+    lemma_mul_is_distributive_sub(t0, m0 * m3, m1 * m2);
+    assert(q * m3 - p * m1 == t0 * det);
     // p*c + q*d == a*(p*m0 - q*m2) + b*(q*m3 - p*m1), by distributivity only
     lemma_mul_is_distributive_sub(p, m0 * a, m1 * b);
     lemma_mul_is_associative(p, m0, a); lemma_mul_is_associative(p, m1, b);
@@ -126,7 +137,9 @@ pub proof fn lemma_matrix_det(a: int, b: int, t0: int, t1: int, m0: int, m1: int
     lemma_mul_is_distributive_sub_other_way(b, q * m3, p * m1);
     lemma_mul_is_commutative(a, p * m0 - q * m2);
     lemma_mul_is_commutative(b, q * m3 - p * m1);
-    assert(a * (t1 * det) + b * (t0 * det) == det * (t1 * a + t0 * b)) by(nonlinear_arith);
+    lemma_mul_is_distributive_add(det, t1 * a, t0 * b);
+    assert(a * (t1 * det) == det * (t1 * a)) by(nonlinear_arith);
+    assert(b * (t0 * det) == det * (t0 * b)) by(nonlinear_arith);
 }
 
 //@ extract src/algorithms/gcd/mod.rs fn inv_mod consts=IDENTITY cprefix=LehmerMatrix
